@@ -136,11 +136,11 @@ impl<T> fmt::Debug for AsyncSender<T> {
 
 macro_rules! shared_impl {
     () => {
-        /// Unlocked snapshot of the channel state for an external test harness.
+        /// Unlocked view of the channel state for an external test harness.
         #[cfg(all(kanal_verif, not(feature = "std-mutex")))]
         #[doc(hidden)]
-        pub fn verif_peek(&self, id: impl FnMut(&T) -> u64) -> crate::verif::Peek {
-            crate::verif::peek_internal(&self.internal, id)
+        pub fn verif_peeker(&self) -> crate::verif::Peeker<T> {
+            crate::verif::Peeker::new(&self.internal)
         }
         /// Returns whether the channel is bounded or not.
         ///
